@@ -12,7 +12,7 @@
 
     Everything that comes from a library is a parameter:
       [canon d]   = Some (url.Parse(d).String()), None when url.Parse fails;
-      [glob_ok p] = glob.Compile(p) succeeds.
+      [glob_ok p] = glob.Compile(p) succeeds (used for paths and, since c9fb527, new hosts).
     The harness computes both with the real libraries for every string of a case.
 
     Faithful to the code: [add_route], [del_route] and [weigh_route] all lower-case the host.
@@ -56,7 +56,8 @@ Definition e_invalid_prefix : N := 6.   (* errInvalidPrefix *)
 Definition e_invalid_target : N := 7.   (* errInvalidTarget *)
 Definition e_url : N := 8.              (* "route: invalid target. ..." *)
 Definition e_no_match : N := 9.         (* errNoMatch *)
-Definition e_glob : N := 10.            (* glob.Compile error *)
+Definition e_glob : N := 10.            (* glob.Compile(path) error *)
+Definition e_invalid_host : N := 11.    (* "route: invalid host. ..." (glob.Compile(host) error, since c9fb527) *)
 
 (* ---- hostpath (table.go:77-89) ---- *)
 Definition hostpath (prefix : str) : str * str :=
@@ -168,7 +169,11 @@ Section Env.
                               {| r_path := path; r_targets := [] |} in
       match lookup host t with
       | None =>
-          if glob_ok path then Ok (t ++ [(host, [fresh])]) else Err e_glob
+          (* a host seen for the first time must compile as a glob (since /repo c9fb527);
+             [glob_ok] is applied to the lower-cased host; existing hosts are not re-checked *)
+          if glob_ok host then
+            if glob_ok path then Ok (t ++ [(host, [fresh])]) else Err e_glob
+          else Err e_invalid_host
       | Some rs =>
           match find path rs with
           | None =>
